@@ -146,9 +146,38 @@ ARC_CASES = [{'arcs': [[8, 1.0, 0, 180, 0.001]], 'expected': 9}, {'arcs': [[8, 1
              {'arcs': [[5, 1.0, 0, 90, 0.001], [5, 1.0, 180, 90, 0.001]], 'wires': [[3, 0, 0, 1.0, 0, 0, 2.0, 0.001]], 'expected': 4 + 4 + 2 + 2 + 2}]
 
 
+def check_moved(spec):
+    """wires moved by --geo-translate / --geo-rotate (per tag) before segmentation: ends are joined where the wires ARE"""
+    import io
+    import contextlib
+    from mininec.mininec import main as mmain
+    out = io.StringIO()
+    with contextlib.redirect_stdout(out):
+        m = mmain(spec['args'], return_mininec=True)
+    if isinstance(m, int) or m is None:
+        return [{'id': 'moved-wires-rejected', 'observed': out.getvalue()[:80], 'input': spec}]
+    if len(m.pulses) != spec['expected']:
+        return [{'id': 'pulse-count:wires-moved-by-a-transformation', 'expected': spec['expected'], 'observed': len(m.pulses), 'input': spec}]
+    return []
+
+
+MOVED_CASES = [
+    # second wire moved ONTO the end of the first (free space and over ground): joined, 5 + 3 + 1 pulses
+    {'args': ['-f', '7', '-w', '6,0,0,5,6,0,5,0.001', '-w', '4,10,3,5,14,3,5,0.001', '--geo-translate=1,-4,-3,0,2', '--excitation-pulse=1'], 'expected': 9},
+    {'args': ['-f', '7', '-w', '6,0,0,5,6,0,5,0.001', '-w', '4,10,3,5,14,3,5,0.001', '--geo-translate=1,-4,-3,0,2', '--medium=0,0,0', '--excitation-pulse=1'], 'expected': 9},
+    # second wire moved AWAY from the end it was drawn on: not joined, 5 + 3 pulses
+    {'args': ['-f', '7', '-w', '6,0,0,5,6,0,5,0.001', '-w', '4,6,0,5,10,0,5,0.001', '--geo-translate=1,0,0.5,0,2', '--excitation-pulse=1'], 'expected': 8},
+    # rotated about z by 90 degrees onto the end of the first
+    {'args': ['-f', '7', '-w', '6,0,0,5,0,6,5,0.001', '-w', '4,6,0,5,10,0,5,0.001', '--geo-rotate=1,0,0,90,2', '--excitation-pulse=1'], 'expected': 9},
+]
+
+
 def main():
     if sys.argv[1] == 'replay':
         spec = json.loads(sys.argv[2])
+        if 'args' in spec:
+            print(json.dumps({'cases': 1, 'violations': check_moved(spec)}, default=str))
+            return
         if 'arcs' in spec:
             print(json.dumps({'cases': 1, 'violations': check_arcs(spec)}, default=str))
             return
@@ -180,6 +209,9 @@ def main():
     for spec in ARC_CASES:
         out['cases'] += 1
         out['violations'] += check_arcs(spec)
+    for spec in MOVED_CASES:
+        out['cases'] += 1
+        out['violations'] += check_moved(spec)
     print(json.dumps(out, default=str))
 
 
